@@ -20,12 +20,146 @@ import (
 //     (generalPosition: every triple of input vertices has |sin| > 1e-6 at each of its corners),
 //     obtained by jittering the lattice polygon (jitterGeneral).  The op line then carries the
 //     rounded float64 coordinates exactly, and the certificate is evaluated in Q on those.
+//   - ox, oy ≠ 0: FAR PLACEMENT.  The polygon is translated by the whole-number vector (ox, oy)
+//     BEFORE the change of unit: the real code gets 2^k·(v + (ox, oy)).  |ox|, |oy| < 2^45 and v has at
+//     most 4 fractional bits below 2^20, so the sum is exact in float64 (checkExact re-verifies every
+//     coordinate with big.Rat): the input is EXACTLY the translated lattice polygon, a legitimate
+//     simple polygon whose distance from the origin is 1e7 … 1e12 times its size.  The property
+//     quantifies over "any rigid placement"; the certificate is translation invariant
+//     (M3d.C14.cert_placement_invariant), so the expected answer is the one at the origin.
+//     Never combined with a non-dyadic factor.
+//   - th ≠ 0 (only together with f ≠ 0, only for 2-D regions): the lattice polygon (in certified
+//     general position) is first ROTATED by the arbitrary angle th in float64, then multiplied by f.
+//     Both steps round; the op line carries the resulting float64 coordinates exactly and the driver
+//     re-decides validity on them, so this is simply another exactly-known input in general position:
+//     a rigid placement by an arbitrary angle.
 type scaleSpec struct {
-	k int
-	f float64
+	k      int
+	f      float64
+	ox, oy int64
+	th     float64
 }
 
-func (s scaleSpec) unit() bool { return s.k == 0 && s.f == 0 }
+func (s scaleSpec) unit() bool { return s.k == 0 && s.f == 0 && !s.far() }
+
+func (s scaleSpec) far() bool { return s.ox != 0 || s.oy != 0 }
+
+// applyX / applyY: the float64 coordinate the real code is given for the lattice value v.
+func (s scaleSpec) applyX(v float64) float64 { return s.applyOff(v, s.ox) }
+func (s scaleSpec) applyY(v float64) float64 { return s.applyOff(v, s.oy) }
+
+func (s scaleSpec) applyOff(v float64, o int64) float64 {
+	if o == 0 {
+		return s.apply(v)
+	}
+	if s.f != 0 {
+		panic("far placement combined with a non-dyadic factor")
+	}
+	w := v + float64(o)
+	// exactness of the float64 sum (the op line promises the exact translated polygon)
+	ex := new(big.Rat).Add(new(big.Rat).SetFloat64(v), new(big.Rat).SetInt64(o))
+	if new(big.Rat).SetFloat64(w).Cmp(ex) != 0 {
+		panic("far placement not exact in float64")
+	}
+	return s.apply(w)
+}
+
+// pickFar: a far translation with |ox|, |oy| ≈ 2^b, b uniform in [minBits, maxBits], full random
+// mantissas, random signs; one time in six only one of the two components is far.
+func pickFar(r *rand.Rand, minBits, maxBits int) (int64, int64) {
+	one := func() int64 {
+		b := minBits + r.Intn(maxBits-minBits+1)
+		v := int64(1)<<uint(b) + r.Int63n(int64(1)<<uint(b))
+		if r.Intn(2) == 0 {
+			v = -v
+		}
+		return v
+	}
+	ox, oy := one(), one()
+	switch r.Intn(12) {
+	case 0:
+		ox = r.Int63n(41) - 20
+	case 1:
+		oy = r.Int63n(41) - 20
+	case 2:
+		// "round" placements as a user would type them
+		ox, oy = 1000000000*(1+r.Int63n(900)), -1000000000*(1+r.Int63n(900))
+		if maxBits < 40 {
+			ox, oy = 1000000000*(1+r.Int63n(9)), -1000000000*(1+r.Int63n(9))
+		}
+	}
+	if ox == 0 && oy == 0 {
+		ox = int64(1) << uint(minBits)
+	}
+	return ox, oy
+}
+
+// clearance: the smallest Euclidean distance, in units (lattice/den), between a vertex and an edge
+// it is not an end point of (edges of all loops).  Everything the sweep decides from ABSOLUTE
+// coordinates (misalignMesh's rotation, yAtX interpolation, ComparePoint) is a comparison between a
+// vertex and such an edge, so a perturbation of the coordinates far below the clearance cannot
+// change a decision.
+func clearance(r *region) float64 {
+	type seg struct{ a, b ipt }
+	var segs []seg
+	for _, l := range r.loops {
+		for i := range l {
+			segs = append(segs, seg{l[i], l[(i+1)%len(l)]})
+		}
+	}
+	best := math.Inf(1)
+	for _, l := range r.loops {
+		for _, v := range l {
+			for _, s := range segs {
+				if v == s.a || v == s.b {
+					continue
+				}
+				ax, ay := float64(s.b.x-s.a.x), float64(s.b.y-s.a.y)
+				px, py := float64(v.x-s.a.x), float64(v.y-s.a.y)
+				t := (px*ax + py*ay) / (ax*ax + ay*ay)
+				if t < 0 {
+					t = 0
+				} else if t > 1 {
+					t = 1
+				}
+				d := math.Hypot(px-t*ax, py-t*ay)
+				if d < best {
+					best = d
+				}
+			}
+		}
+	}
+	return best / float64(r.den)
+}
+
+// farPlacedSweep: a far placement for the kinds that look at absolute coordinates (TriangulateMesh
+// rotates them, the sweep interpolates them): the offset 2^b is only used if the rounding it causes
+// (≤ 2^(b-52) per operation) is at least 64 times smaller than the region's clearance; b is lowered
+// until that holds, and below 2^farMinBits the region is not placed far at all (nil).
+func farPlacedSweep(rng *rand.Rand, r *region, minBits, maxBits int) *region {
+	cl := clearance(r)
+	for maxBits >= minBits && math.Ldexp(64, maxBits+1-52) > cl {
+		maxBits--
+	}
+	if maxBits < minBits {
+		return nil
+	}
+	return farPlaced(rng, r, minBits, maxBits)
+}
+
+// farPlaced: region r far from the origin (optionally also in another dyadic unit).
+func farPlaced(rng *rand.Rand, r *region, minBits, maxBits int) *region {
+	out := &region{den: r.den, loops: r.loops}
+	out.sc.ox, out.sc.oy = pickFar(rng, minBits, maxBits)
+	if rng.Intn(4) == 0 {
+		k := 1 + rng.Intn(20)
+		if rng.Intn(2) == 0 {
+			k = -k
+		}
+		out.sc.k = k
+	}
+	return out
+}
 
 func (s scaleSpec) apply(v float64) float64 {
 	if s.k != 0 {
@@ -39,6 +173,12 @@ func (s scaleSpec) apply(v float64) float64 {
 
 func (s scaleSpec) name() string {
 	switch {
+	case s.far() && s.k != 0:
+		return "far+dyadic"
+	case s.far():
+		return "far"
+	case s.f != 0 && s.th != 0:
+		return "nondyadic+rotated"
 	case s.f != 0:
 		return "nondyadic"
 	case s.k < 0:
@@ -212,6 +352,9 @@ func placed(rng *rand.Rand, r *region, nonDyadic, oriented bool) *region {
 			out.sc = pickDyadic(rng)
 		} else {
 			out.loops = j
+			if rng.Intn(2) == 0 {
+				out.sc.th = 0.01 + rng.Float64()*6.27
+			}
 		}
 	}
 	return out
